@@ -3365,6 +3365,14 @@ func (a *Association) createForwardTSN() *chunkForwardTSN {
 			break
 		}
 
+		if c.unordered {
+			// Only ordered chunks skip a stream sequence number. An unordered chunk
+			// carries the stream's next *unused* SSN: reporting it would make the
+			// receiver skip the next ordered message of that stream, which was
+			// not abandoned.
+			continue
+		}
+
 		ssn, ok := streamMap[c.streamIdentifier]
 		if !ok {
 			streamMap[c.streamIdentifier] = c.streamSequenceNumber
